@@ -36,7 +36,7 @@ def chk(pid, d):
 m = {
  "version": 1, "setup_cmd": "bin/setup.sh",
  "hooks": {"guard": "verif", "enable": "go build -tags verif (tools/harness is built with it on every check run)",
-           "baseline_off_cmd": "/verif/bin/baseline_off.sh", "source_commits": ["83b3df4"], "add_only": True},
+           "baseline_off_cmd": "/verif/bin/baseline_off.sh", "source_commits": ["83b3df4", "68b833c"], "add_only": True},
  "engines": [
   {"name": "coq-proof", "path": "coq/", "serves_properties": sorted(CHECKS), "kind_free_text": "Coq 8.16.1 development: generated models (tools/gotrans), hand-written models, specs, property theorems in coq/theories/Props"},
   {"name": "correspondence", "path": "bin/check.py", "serves_properties": sorted(CHECKS), "kind_free_text": "differential of the Go implementation (tools/harness) against OCaml extractions of the Coq definitions (tools/oracle)"}],
